@@ -50,8 +50,23 @@ def one_history(ctx, r):
             rel = r.pick(PATHS); summ = r.weighted([(r.pick(SUMMARIES), 60), ("ok %d" % step, 40)])
             if step == 5:
                 rel, summ, tid = "fifo", "a named pipe", ids[0]      # every history tries the non-regular file once
+            have = [(i, expect[i][0][0]) for i in ids if expect.get(i)]
+            if have and r.p(30):
+                tid, rel = r.pick(have)             # attach again the path this task already carries (as a new version of the same deliverable)
             mode = r.weighted([("json", 60), ("flags", 40)])
             extra = r.weighted([({}, 70), ({"state": r.pick(["done", "blocked", "todo", "doing"])}, 30)])
+            # the file may have been rewritten since it was last attached — also by a tool that restores the modification time
+            # (cp -p, rsync -t, tar): the recorded hash is that of the content *now*, nothing remembered about the file may be reused
+            ok_, c_ = confined(rel)
+            full_ = os.path.join(root, c_)
+            if ok_ and rel and os.path.isfile(full_) and not os.path.islink(full_) and r.p(55):
+                stt = os.stat(full_)
+                with open(full_, "ab") as f:
+                    f.write(("rev %d\n" % step).encode())
+                keep = r.p(60)
+                if keep:
+                    os.utime(full_, ns=(stt.st_atime_ns, stt.st_mtime_ns))
+                trace.append({"edit": "content of %s changed%s" % (c_, ", modification time restored" if keep else "")})
             pre = st.graph()
             if mode == "json":
                 rr = ex(["--json", "--agent", "ag", "set", tid], json.dumps(dict({"result_path": rel, "result_summary": summ}, **extra)).encode(), timeout=4)
@@ -137,7 +152,7 @@ def one_history(ctx, r):
             ids[:] = [i for i in ids if i in expect]
             if not ids:
                 return
-        ctx.sample({"attach_history": [t["argv"] for t in trace[:8]]}, cap=3)
+        ctx.sample({"attach_history": [t.get("argv", t.get("edit")) for t in trace[:8]]}, cap=3)
     finally:
         shutil.rmtree(outer, ignore_errors=True)
 
